@@ -15,7 +15,7 @@ CHECKS: dict[str, dict[str, str]] = {
                   'the authenticator, asyncio Lock / Condition as they behave) model-checked with TLC over all interleavings incl. termination under fairness, and '
                   'bound to the code by trace validation of the real machinery observed from outside (Trace_Vault); TLA+ reference of the API retry loop and of '
                   'throttling (Infra.tla) with laws checked by TLC over all fault words; the real api.request / throttled processing run in virtual time, records judged by TLC',
-        text='[+ expiration of credentials in Vault.tla: F37 found by TLC (NoCrash / NoLeak), replayed on the real code, repaired; the old code is the witness variant f37] [+ Vault.tla / MC_Vault: NoReuse, SingleReauth, ReauthOnlyOnRevocation, NoCrash, NoLeak, LockDiscipline for 2-3 requesters x 1-2 keys x revocations x faults x login outcomes (fresh / same / none) x both kinds of credentials, negative variant `bykey`; Trace_Vault: 400 (quick) / 6000 (thorough) seeded schedules of the real Vault / authenticated / api.request / authenticator, every lock acquisition, wait, notification, selection, flush, request and answer mapped to one action of the model, the vault compared after every event] [+ a session whose close() takes time while another request retries from its backoff; reuse of invalidated credentials judged at the instant a request leaves the client] [+ timers whose own PATCH exhausts the retries: known finding F17] RetryPlan gives the exact instants of all attempts for a fault word (connection errors, timeouts, 5xx, 403, 429 with Retry-After, '
+        text='[+ Kits.tla: the error pause is aiotime.sleep] [+ expiration of credentials in Vault.tla: F37 found by TLC (NoCrash / NoLeak), replayed on the real code, repaired; the old code is the witness variant f37] [+ Vault.tla / MC_Vault: NoReuse, SingleReauth, ReauthOnlyOnRevocation, NoCrash, NoLeak, LockDiscipline for 2-3 requesters x 1-2 keys x revocations x faults x login outcomes (fresh / same / none) x both kinds of credentials, negative variant `bykey`; Trace_Vault: 400 (quick) / 6000 (thorough) seeded schedules of the real Vault / authenticated / api.request / authenticator, every lock acquisition, wait, notification, selection, flush, request and answer mapped to one action of the model, the vault compared after every event] [+ a session whose close() takes time while another request retries from its backoff; reuse of invalidated credentials judged at the instant a request leaves the client] [+ timers whose own PATCH exhausts the retries: known finding F17] RetryPlan gives the exact instants of all attempts for a fault word (connection errors, timeouts, 5xx, 403, 429 with Retry-After, '
              'other 4xx) under a backoff list and enforce_retry_after; TLC checks its laws for 37 448 cases and then judges the real '
              'api.request on ~900 (quick) / all (thorough) words: attempt instants must be equal. Throttling: per-object delays grow per '
              'consecutive error, reset by success, other objects are processed at their arrival instants, the operator stays alive and '
@@ -41,7 +41,7 @@ CHECKS: dict[str, dict[str, str]] = {
         technique='explicit TLA+ model of peering (Peering.tla: keep-alive, evaluation of queued snapshots, clean, deadline sleep, graceful '
                   'exit, kill, foreign writes) checked exhaustively with TLC incl. liveness; executions of 1-3 real operators sharing a peering '
                   'object in virtual time validated by TLC against the specification (Trace_Peering.tla, with time urgency)',
-        text='[+ the watcher tasks of the handled kind in all runs validated step by step against Streaming.tla: closed in the instant the pause reaches the task, nothing requested while paused, back-off and a fresh listing afterwards] [+ schedules drawn by TLC (-simulate on Sim_Peering) replayed into the real operators] TLC: RenewsInTime and WithdrawsOnExit in every state, ExactlyTop / EventuallyStable and CleansDead under fairness, for every '
+        text='[+ the streams of the peering object are cut after the version has grown by a digit; the peering watcher tasks through Trace_Streaming] [+ the watcher tasks of the handled kind in all runs validated step by step against Streaming.tla: closed in the instant the pause reaches the task, nothing requested while paused, back-off and a fresh listing afterwards] [+ schedules drawn by TLC (-simulate on Sim_Peering) replayed into the real operators] TLC: RenewsInTime and WithdrawsOnExit in every state, ExactlyTop / EventuallyStable and CleansDead under fairness, for every '
              'order of starts, exits, kills and foreign writes of 2-3 operators with stale snapshots queued; negative and witness '
              'configurations (period = lifetime; families F26, F27). Real operators: every PATCH of the peering object must be the write '
              'the specification predicts at that instant (content and time), every evaluation must split the peers into dead / higher / '
@@ -56,7 +56,7 @@ CHECKS: dict[str, dict[str, str]] = {
         technique='explicit TLA+ model of the operator\'s task orchestration (Lifecycle.tla: startup/cleanup task, gated root tasks, their '
                   'children, run_tasks) checked exhaustively with TLC incl. a leads-to; runs of the real kopf.operator() in virtual time '
                   'validated by TLC against the specification (Trace_Lifecycle.tla, silent steps for the mechanism)',
-        text='[+ an object marked for deletion shortly before the stop: its daemon is in the graceful stage of its termination when the operator is stopped] TLC: no API request before the startup handlers succeeded, ready only after startup, a failed startup makes no request and runs '
+        text='[+ the family F5 under C20 (a daemon whose object vanished lives through the cleanup); a stop within a few loop iterations around the end of the startup activity] [+ an object marked for deletion shortly before the stop: its daemon is in the graceful stage of its termination when the operator is stopped] TLC: no API request before the startup handlers succeeded, ready only after startup, a failed startup makes no request and runs '
              'no cleanup, cleanup only after daemons, streams, the peering record and every root task are gone, nothing lingers at return, '
              'failures are re-raised, and every stop / failure leads to the return - for all startup/cleanup scripts and every position of '
              'a stop flag, a cancellation and an essential-task failure. Real runs (scripted handlers with durations, daemons, peering, '
@@ -82,7 +82,7 @@ CHECKS: dict[str, dict[str, str]] = {
     'C17': dict(
         technique='TLA+ reference state machine of indexing (Indexing.tla); the recorded steps of the real operator are replayed by TLC, which '
                   'predicts the handlers that run and the full contents of every index after each step; gate scenarios judged by the same module',
-        text='[+ objects are incarnations (uid): an object re-created under its name while the worker of the old one is still busy] [+ Gate.tla: readiness gate x worker limit, handlers only after the initial index, startup terminates; witness of F16] Random histories (adds, edits, label toggles, deletes over 3 objects with colliding keys, 2 indices, results: mapping / scalar / '
+        text='[+ Kits.tla: the readiness gate is a ToggleSet -- the real aiotoggles classes under seeded schedules validated by Trace_Kits] [+ objects are incarnations (uid): an object re-created under its name while the worker of the old one is still busy] [+ Gate.tla: readiness gate x worker limit, handlers only after the initial index, startup terminates; witness of F16] Random histories (adds, edits, label toggles, deletes over 3 objects with colliding keys, 2 indices, results: mapping / scalar / '
              'None / temporary / permanent / arbitrary error) run on the real operator; an on.event handler dumps the indices through the '
              'kwarg views after every event; TLC replays each trace through Indexing.tla and requires equality of the handler sets and of all '
              'index contents. The readiness gate is exercised with delayed listings of two indexed kinds and objects arriving meanwhile.',
@@ -94,7 +94,7 @@ CHECKS: dict[str, dict[str, str]] = {
                   'executions of the real operator with scripted daemons validated by TLC step by step against Spawning.tla (Trace_Spawning.tla) '
                   'and against a TLA+ property automaton (DaemonMonitor.tla); configurations and histories drawn by TLC (-simulate on Sim_Spawning) '
                   'replayed into the real operator',
-        text='[+ known family F9 in the mixed histories (Handling!Family_F9)] TLC explores every interleaving of label toggles, deletion and daemon reactions for one object/one daemon (3 reaction kinds); '
+        text='[+ explicit zero backoffs] [+ known family F9 in the mixed histories (Handling!Family_F9)] TLC explores every interleaving of label toggles, deletion and daemon reactions for one object/one daemon (3 reaction kinds); '
              'the clauses that hold are invariants, the known families F5 and F18 are shown by witness configurations. Random histories '
              '(toggles, edits, graceful deletion, forced finalizer removal, operator exit; 1-2 daemons + a timer; obey / needs-cancel / '
              'swallows-cancel / exits-on-its-own; backoff x timeout) run on the real operator in virtual time; TLC evaluates the C09 clauses '
@@ -208,7 +208,7 @@ CHECKS: dict[str, dict[str, str]] = {
     'C11': dict(
         technique='explicit TLA+ model of the closed loop of one object (Handling.tla) checked exhaustively with TLC; traces of the real '
                   'kopf.operator() in the world simulator validated by TLC against the specification (Trace_Handling.tla)',
-        text='[+ Activities.tla: whole activities (the reference of one invocation iterated over the rounds) vs the real run_activity with scripted handlers that end in different rounds: attempt instants, per-handler verdicts, the verdict of the activity] [+ re-listings whose snapshot predates the own patch and is delivered after it (patch latency, list answer latency, compaction)] [+ Execution.tla: reference of one invocation - timeout / retries before the attempt, look-ahead for temporary and arbitrary errors, error modes, backoff - laws checked by TLC over 143 360 input combinations; the real execute_handler_once on configurations x states (incl. runtimes beyond 24 h) x behaviours for an activity and a change handler judged by TLC] retry numbering, delays (a handler is never invoked before its recorded delay), permanence, ignored mode and the retries limit for change handlers incl. across kills/restarts (RetriesBounded, InvokeGoverned); records after every PATCH are compared field by field' ' -- checked by TLC on Handling.tla for every interleaving of the bounded configurations, and on every state of '
+        text='[+ Kits.tla: what aiotime.sleep returns, 1040 records of the real coroutine incl. instants and delays that are no round numbers] [+ Activities.tla: whole activities (the reference of one invocation iterated over the rounds) vs the real run_activity with scripted handlers that end in different rounds: attempt instants, per-handler verdicts, the verdict of the activity] [+ re-listings whose snapshot predates the own patch and is delivered after it (patch latency, list answer latency, compaction)] [+ Execution.tla: reference of one invocation - timeout / retries before the attempt, look-ahead for temporary and arbitrary errors, error modes, backoff - laws checked by TLC over 143 360 input combinations; the real execute_handler_once on configurations x states (incl. runtimes beyond 24 h) x behaviours for an activity and a change handler judged by TLC] retry numbering, delays (a handler is never invoked before its recorded delay), permanence, ignored mode and the retries limit for change handlers incl. across kills/restarts (RetriesBounded, InvokeGoverned); records after every PATCH are compared field by field' ' -- checked by TLC on Handling.tla for every interleaving of the bounded configurations, and on every state of '
              'the behaviour that explains each recorded trace of the real operator (seeded random scenarios of profile errors; every '
              'PATCH is compared with the specification\'s server object field by field, virtual time is bound by urgency). Daemons and timers '
              'hold the finalizer too: the daemon executions of C09 are validated against Spawning.tla (Trace_Spawning: every finalizer write must '
@@ -233,7 +233,7 @@ CHECKS: dict[str, dict[str, str]] = {
         technique='explicit TLA+ model of the multiplexer (Queueing.tla) checked exhaustively with TLC incl. liveness; traces of the '
                   'real watcher/worker/scheduler (q.* hooks) recorded under a virtual clock and validated by TLC against the spec '
                   '(Trace_Queueing.tla, with time urgency)',
-        text='[+ deliveries, not versions, are the events: re-listings while workers are busy or idle but alive] [+ a cluster-scoped kind served by an operator restricted to several namespaces: one stream, every event once] TLC visits every interleaving of arrivals, scheduler starts, idle-timeout expiries (enabled whether or not the backlog '
+        text='[+ Scheduling.tla: the pool of the per-object workers (aiotasks.Scheduler) as a model and bound by Trace_Scheduling: FIFO hand-over, the limit, nothing startable left waiting while time passes, close() owns everything] [+ deliveries, not versions, are the events: re-listings while workers are busy or idle but alive] [+ a cluster-scoped kind served by an operator restricted to several namespaces: one stream, every event once] TLC visits every interleaving of arrivals, scheduler starts, idle-timeout expiries (enabled whether or not the backlog '
              'was just filled), processing ends and watcher cancellation for 2-3 objects x 2-3 events under worker limits '
              '{unlimited, 1, 2}; the negative configuration shows the invariants detect the lost event. The real operator is then run '
              'in the world simulator on crafted and seeded-random timed scenarios that force exactly those schedules (an arrival at '
